@@ -6,7 +6,7 @@ use crate::sem::{self, SemCase, Side};
 use serde_json::json;
 
 pub fn cfg() -> GenCfg {
-    GenCfg { helpers_must_exist: true, max_helpers: 4, inline_permille: 0, max_stmts: 5, ..GenCfg::default() }
+    GenCfg { helpers_must_exist: true, max_helpers: 4, inline_permille: 0, max_stmts: 5, simple_helper_permille: 250, ..GenCfg::default() }
 }
 
 fn has_branch_or_early_return(f: &crate::ast::Func) -> bool {
